@@ -283,6 +283,11 @@ def intrinsic_constraints(e):
                     d = dict(it[3])
                     out.append(_c(lin(x0), lin(d["end"]), 1))
                     out.append(_c(lin(d["start"]), lin(x0), 0))
+        # the index handed out by `coll.iter().enumerate()` is below coll.len()
+        if x0[0] == "field" and x0[2] == "0":
+            coll = A.ascending_index_of(x0)
+            if coll is not None and not (coll[0] == "agg"):
+                out.append(_c(lin(x0), ({"len(%s)" % _atom(coll): 1}, 0), 1))
         # `s.split(pat)` yields at least one item for every s (an empty s gives [""]), so a collection of all its items is non-empty
         if x0[0] == "call" and any(x0[1].endswith(s_) for s_ in LEN_CALLS) and x0[2]:
             src = A.peel(x0[2][0])
@@ -478,6 +483,110 @@ def _ty_hint(e):
 
 # ------------------------------------------------------------------------------------ site discharge
 
+VEC_MUTATORS = ("::push", "::insert", "::remove", "::swap_remove", "::clear", "::truncate", "::retain", "::pop", "::append", "::extend",
+                "::drain", "::split_off", "::dedup", "::resize", "::extend_from_slice", "::sort", "::reverse")
+
+
+def position_counter_bound(f, res, idx_expr, vec_expr, use_block):
+    """`i < v.len()` for an index that is the position counter of a loop over `v.iter()`: the counter starts at 0, is
+    incremented exactly once per iteration after the point where it is read, it is read (directly, or stored as
+    `Some(counter)` and unwrapped later) in an iteration in which `next()` returned an element, and `v` is not
+    resized in between.  This is the loop spelling of `v.iter().position(p)`, and what that call is normalised to."""
+    def same_vec(x):
+        px, pv_ = A.path_str(x), A.path_str(vec_expr)
+        return (px is not None and px == pv_) or A.same_value(x, vec_expr)
+    cands = []
+    pe = A.peel(idx_expr)
+    if pe[0] == "field" and pe[2] == "0" and pe[1][0] == "downcast" and pe[1][2] == "Some":
+        opt = A.peel(pe[1][1])
+        alts = []
+        if opt[0] == "phi" and len(opt) > 2:
+            for d in f.defs().get(opt[2], []):
+                if d[2] == "partial":
+                    return None
+                alts.append((d[0], A.peel(res._def_expr(d, 0))))
+        elif opt[0] == "agg":
+            ds = [d for d in f.defs().values()]
+            return None
+        for blk, a in alts:
+            if a[0] == "agg" and a[2] == "None":
+                continue
+            if a[0] == "agg" and a[2] == "Some":
+                cands.append((blk, A.peel(dict(a[3])["0"])))
+            else:
+                return None
+    else:
+        cands.append((use_block, pe))
+    if not cands:
+        return None
+    for site, y in cands:
+        if not (y[0] == "phi" and len(y) > 2):
+            return None
+        lc = y[2]
+        ds = [d for d in f.defs().get(lc, []) if d[2] != "partial"]
+        if len(ds) != 2:
+            return None
+        init = [d for d in ds if A.peel(res._def_expr(d, 0))[0] == "const" and A.peel(res._def_expr(d, 0))[2] == 0]
+        incs = []
+        for d in ds:
+            if d in init or d[2] != "assign":
+                continue
+            rv = f.blocks[d[0]]["stmts"][d[1]]["rv"]
+            if rv["k"] == "bin" and rv["op"] in ("Add", "AddWithOverflow", "AddUnchecked"):
+                a_, b_ = A.op_place(rv["a"]), rv["b"]
+                if a_ is not None and a_["l"] == lc and not a_.get("p") and "const" in b_ and b_["const"].get("val") == 1:
+                    incs.append(d)
+            elif rv["k"] == "use":
+                # `i = move (tmp.0)` of a checked add `tmp = AddWithOverflow(i, 1)`
+                pl = A.op_place(rv["op"])
+                if pl is not None and pl.get("p") and f.single_def(pl["l"]) is not None:
+                    sd = f.single_def(pl["l"])
+                    if sd[2] == "assign":
+                        rv2 = f.blocks[sd[0]]["stmts"][sd[1]]["rv"]
+                        a_ = A.op_place(rv2.get("a", {})) if rv2["k"] == "bin" else None
+                        if rv2["k"] == "bin" and rv2["op"].startswith("Add") and a_ is not None and a_["l"] == lc and "const" in rv2["b"] and rv2["b"]["const"].get("val") == 1:
+                            incs.append(d)
+        if len(init) != 1 or len(incs) != 1:
+            return None
+        inc = incs[0][0]
+        loops = [(h, body) for h, body in f.loops() if inc in body and init[0][0] not in body]
+        if not loops:
+            return None
+        h, body = min(loops, key=lambda x: len(x[1]))
+        # the loop's progress call: next() over an iterator of the same vector
+        nxt = []
+        for b in body:
+            t = f.term(b)
+            if t["k"] == "call" and (t.get("callee") or "").endswith("::next"):
+                ce = res.call_expr(t, b)
+                src = A.peel(ce[2][0]) if ce[2] else None
+                if src is not None and same_vec(src):
+                    nxt.append(b)
+        if len(nxt) != 1:
+            return None
+        conds = A.Conds(f, res)
+        some_edges = [(a, s_) for a, s_ in conds.edges_where(lambda fc: fc[0] == "is" and fc[1] == "Some" and A.peel(fc[2])[0] == "call" and A.peel(fc[2])[3] == (f.key, nxt[0]))]
+        if len(some_edges) != 1:
+            return None
+        st = some_edges[0][1]
+        if site not in f.reachable(st, removed_blocks=[inc, h]) and site != st:
+            return None
+        if h in f.reachable(st, removed_blocks=[inc]):
+            return None                      # an iteration can go round without counting
+        # no resize of the vector inside the loop, nor between the read and the use
+        risky = set(body) | (f.reachable(site) if site != use_block else set())
+        for b in risky:
+            t = f.term(b)
+            if b == use_block or t["k"] != "call":
+                continue
+            n = t.get("callee") or ""
+            if any(n.endswith(m) for m in VEC_MUTATORS) and t["args"]:
+                ce = res.call_expr(t, b)
+                if same_vec(ce[2][0]) and (b in body or use_block in f.reachable(b)):
+                    return None
+    return True, "index is the position counter of a loop over the same vector, read in an iteration that produced an element (counter < len)"
+
+
 class Discharger:
     """decides every panic-capable site of a set of functions; justification callbacks for the
     externals (unwrap / expect / explicit panic) are supplied per property."""
@@ -588,6 +697,9 @@ class Discharger:
             ok, how = pv.prove(b, _c(lin(e[2][1]), ln, 1), [e[2][1]])
             if ok:
                 return ok, how
+            pc = position_counter_bound(f, res, e[2][1], e[2][0], b)
+            if pc:
+                return pc
         if kind == "call:insert" and "Vec" in (t.get("callee") or ""):
             e = res.call_expr(t, b)
             ln = ({"len(%s)" % _atom(e[2][0]): 1}, 0)
